@@ -11,6 +11,7 @@ import (
 	"time"
 
 	"github.com/itchio/lake"
+	"github.com/itchio/wharf/bsdiff"
 	"verif/lib"
 )
 
@@ -49,6 +50,18 @@ func c15Pair(seed uint64, shape string) *lib.Pair {
 		p.New.PutFile(last, append(append([]byte(nil), olds[0][:lib.BS]...), olds[n-1][:lib.BS]...))
 		p.Feat["equal-shares"] = true
 		return p
+	case "bigfresh":
+		// a run of unmatched data that spans the differ's 4 MiB + 2 block working buffer: where DATA ops are
+		// cut must not depend on how the source slices its reads
+		p := &lib.Pair{Old: lib.NewBuild(), New: lib.NewBuild(), Feat: map[string]bool{}}
+		o := lib.RandomBytes(int64(r.Range(3, 9))*lib.BS+int64(r.Intn(lib.BS)), r.Uint64())
+		p.Old.PutFile("big.bin", o)
+		nd := append([]byte(nil), o[:2*lib.BS]...)
+		nd = append(nd, lib.RandomBytes(int64(r.Range(4*lib.MB+lib.BS, 5*lib.MB+300000)), r.Uint64())...)
+		nd = append(nd, o[2*lib.BS:]...)
+		p.New.PutFile("big.bin", nd)
+		p.Feat["fresh-run-across-buffer-wrap"] = true
+		return p
 	case "tiny":
 		return lib.GenPair(seed, lib.GenOpts{ManyTiny: true, MaxFile: 3000, MinFiles: 1, MaxFiles: 2})
 	case "edges":
@@ -80,7 +93,7 @@ func c15Cases(tier string, seed uint64, flavor string) []lib.Case {
 		}
 	}
 	comps := []lib.Comp{{Algo: "none"}, {Algo: "gzip", Quality: 1}, {Algo: "brotli", Quality: 1}, {Algo: "none"}}
-	shapes := []string{"generic", "shares", "tiny", "edges", "generic", "shares"}
+	shapes := []string{"generic", "shares", "tiny", "edges", "bigfresh", "shares", "generic"}
 	var cases []lib.Case
 	for i := 0; i < n; i++ {
 		s := c15Spec{PairSeed: lib.Mix(seed, 15, uint64(i)), Shape: shapes[i%len(shapes)], Comp: comps[i%len(comps)], Runs: runs}
@@ -130,7 +143,11 @@ func c15Run(c lib.Case, env *lib.Env) lib.Result {
 	var patchSums, sigSums []string
 	prev := runtime.GOMAXPROCS(0)
 	defer runtime.GOMAXPROCS(prev)
-	for run := 0; run < s.Runs; run++ {
+	diffRuns := s.Runs
+	if s.Shape == "bigfresh" && env.Flavor != "plain" {
+		diffRuns = 2
+	}
+	for run := 0; run < diffRuns; run++ {
 		runtime.GOMAXPROCS(procsList[run%len(procsList)])
 		cs := lib.Mix(s.PairSeed, 151, uint64(run))
 		pw := &yieldWriter{rng: lib.NewRng(lib.Mix(cs, 1))}
@@ -164,7 +181,7 @@ func c15Run(c lib.Case, env *lib.Env) lib.Result {
 		}
 	}
 	// optimizer determinism for fixed parameters (bsdiff hooks perturb workers, dispatcher and collector)
-	if firstPatch != nil {
+	if firstPatch != nil && s.Shape != "bigfresh" {
 		for _, op := range []lib.OptParams{{Partitions: 2}, {Partitions: 5, ForceMapAll: true}, {Partitions: 0, SSC: 4}} {
 			op.Comp = &lib.Comp{Algo: "none"}
 			var first []byte
@@ -180,6 +197,10 @@ func c15Run(c lib.Case, env *lib.Env) lib.Result {
 					lib.SetHook(sc)
 				}
 				var ob bytes.Buffer
+				op.Stats = nil
+				if run%2 == 0 {
+					op.Stats = &bsdiff.DiffStats{} // statistics collection on: shared between the scanner's goroutines
+				}
 				err := lib.Optimize(firstPatch, oldDir, newDir, op, &ob)
 				lib.SetHook(nil)
 				if err != nil {
@@ -187,6 +208,12 @@ func c15Run(c lib.Case, env *lib.Env) lib.Result {
 					break
 				}
 				res.Add("optimize_runs", 1)
+				if op.Stats != nil {
+					if want, ok := c15BiggestAdd(ob.Bytes()); ok && op.Stats.BiggestAdd != want {
+						res.Violate("bsdiff-stats-wrong", desc, fmt.Sprintf("params=%+v: DiffStats.BiggestAdd = %d, largest add in the optimized patch = %d", op, op.Stats.BiggestAdd, want))
+					}
+					res.Add("optimize_runs_with_stats", 1)
+				}
 				res.Add("bsdiff_hook_events", int64(len(sc.Events())))
 				if len(sc.Events()) > 0 {
 					res.SetAdd("bsdiff_interleaving_signatures", sc.Signature())
@@ -214,6 +241,23 @@ func c15Run(c lib.Case, env *lib.Env) lib.Result {
 		res.Sample = map[string]interface{}{"pairSeed": s.PairSeed, "shape": s.Shape, "comp": s.Comp.String(), "runs": s.Runs, "patchSha": patchSums, "signatureSha": sigSums, "relations": pair.FeatList()}
 	}
 	return res
+}
+
+// c15BiggestAdd returns the largest add region of all bsdiff series in an optimized patch.
+func c15BiggestAdd(patch []byte) (int64, bool) {
+	ps, err := lib.DecodePatch(patch)
+	if err != nil {
+		return 0, false
+	}
+	var m int64
+	for _, se := range ps.Series {
+		for _, c := range se.Ctrls {
+			if int64(len(c.Add)) > m {
+				m = int64(len(c.Add))
+			}
+		}
+	}
+	return m, true
 }
 
 // c15MappingDiff says whether two optimized patches differ in which old file a series was mapped to.
